@@ -542,6 +542,20 @@ def run_components(ctx, i, space):
                               "attribute": "cslot_%d" % ai})
     imports = rng.choice([[pc], [pa, pc], [pc, pb, pa], [pb, pb, pc],
                           [pa, pa], [pc, pc, pb]])
+    # now and then a schema with very many components (17-22 more), the
+    # first ones imported again at the end: still each component once
+    many = []
+    if rng.random() < 0.08:
+        for k in range(rng.randint(17, 22)):
+            pn = space.new_name("m%d" % k)
+            tk = packages.gen_component_types(rng, model, "pm%d" % k, 1)
+            space.write(pn, {"component.xml":
+                             packages.component_xml(tk, base)})
+            many.append((pn, tk))
+        imports = imports[:1] + [pn for pn, _ in many] + imports + \
+            [many[0][0], many[1][0]]
+        ctx.res.count("schemas_with_many_components")
+    many_names = set(pn for pn, _ in many)
     # some of the imports are made by the configuration text instead
     # ('%import' lines in front of it): the same vocabulary in the end
     late = []
@@ -572,6 +586,8 @@ def run_components(ctx, i, space):
     # expansion: everything defined in place once, in definition order
     reach = set()
     for p in imports + late:
+        if p in many_names:
+            continue
         reach.update({pa: [pa, pb] if cyclic else [pa], pb: [pa, pb],
                       pc: [pa, pb, pc]}[p])
     em = copy.deepcopy(m)
@@ -580,6 +596,8 @@ def run_components(ctx, i, space):
         if p in reach:
             extra.extend(copy.deepcopy(ts))
     extra.extend(copy.deepcopy(twins))
+    for pn, tk in many:
+        extra.extend(copy.deepcopy(tk))
     abstract_defs = [t for t in em["types"] if t["kind"] == "abstract"]
     rest = [t for t in em["types"] if t["kind"] != "abstract"]
     em["types"] = abstract_defs + extra + rest
@@ -617,7 +635,9 @@ def run_components(ctx, i, space):
                                pb: packages.component_xml(tb, base, [pa]),
                                pc: packages.component_xml(tc, base,
                                                           [pa, pb]),
-                               base: packages.abstract_xml(model)},
+                               base: packages.abstract_xml(model),
+                               **{pn: packages.component_xml(tk, base)
+                                  for pn, tk in many}},
                   "prefix": "".join("%%import %s\n" % p for p in late)},
                  rng)
 
